@@ -25,7 +25,7 @@ def _attached_controller_cases(tier):
 
 
 @contract(
-    "cval_fixpoint", ["C05"],
+    "cval_fixpoint", ["C05", "C09"],
     targets=["rv.modules.module:Module.set_raw", "rv.modules.module:Module.get_raw",
              "rv.controller:Range.from_raw_value", "rv.controller:Range.to_raw_value",
              "rv.controller:Range.__call__", "rv.controller:Range.validate",
